@@ -246,17 +246,23 @@ pub fn ops(seed: u64, scale: u32) -> Vec<Op> {
     v
 }
 
-/// in-process monitor: every call twice on equal input (fresh clones inside the thunks), equal digests
+/// in-process monitor. Each round takes one seeded op list and calls every op (a) twice back to back,
+/// (b) again after ALL other ops have run, in a shuffled order (equal input, different call history), and
+/// (c) once more on a freshly spawned thread (no thread-local history). All digests of one op must agree.
 pub fn run(ctx: &Ctx, sh: &mut Shard) {
     let scale = if ctx.tier == "thorough" && ctx.shard < 2 { 2 } else { 1 };
     let mut round = 0u64;
     while sh.cases < ctx.budget {
         let seed = ctx.seed.wrapping_mul(1000003).wrapping_add(ctx.shard * 7919 + round);
         round += 1;
-        for (name, f) in ops(seed, scale) {
-            if sh.cases >= ctx.budget {
-                break;
-            }
+        let list = ops(seed, scale);
+        let n = list.len();
+        let mut first: Vec<Option<u64>> = vec![None; n];
+        let report = |sh: &mut Shard, check: &str, name: &str, a: u64, b: u64| {
+            let base = name.split('.').next().unwrap_or("").to_string();
+            sh.violation(&format!("{check}|{base}|-"), json!({"property": "C20", "check": check, "op": name, "ops_seed": seed, "scale": scale, "expected": format!("{a:016x}"), "got": format!("{b:016x}")}));
+        };
+        for (i, (name, f)) in list.iter().enumerate() {
             sh.cases += 1;
             let d1 = call(|| f());
             let d2 = call(|| f());
@@ -264,23 +270,44 @@ pub fn run(ctx: &Ctx, sh: &mut Shard) {
             match (d1, d2) {
                 (Ok(a), Ok(b)) => {
                     if a != b {
-                        let base = name.split('.').next().unwrap_or("").to_string();
-                        sh.violation(&format!("repeat_in_process|{base}|-"), json!({"property": "C20", "check": "repeat_in_process", "op": name, "ops_seed": seed, "scale": scale, "expected": format!("{a:016x}"), "got": format!("{b:016x}")}));
+                        report(sh, "repeat_in_process", name, a, b);
                     }
+                    first[i] = Some(a);
                     let mut h = Fnv::new();
-                    h.str(&name);
+                    h.str(name);
                     h.u64(a);
                     sh.nontrivial(h.0);
                 }
-                (a, b) => {
-                    // a panic is judged by the property whose contract the call belongs to; here only note it
-                    sh.class(&format!("panic_observed:{}", name.split('.').next().unwrap_or("")));
-                    let _ = (a, b);
-                }
+                _ => sh.class(&format!("panic_observed:{}", name.split('.').next().unwrap_or(""))),
             }
             sh.class(&format!("op:{}", name.split('.').next().unwrap_or("")));
-            sh.sample(|| json!({"op": name, "digest": format!("{:016x}", 0)}));
+            sh.sample(|| json!({"op": name, "digest": format!("{:016x}", first[i].unwrap_or(0))}));
         }
+        // (b) different call history: every op again, in a shuffled order
+        let mut order: Vec<usize> = (0..n).collect();
+        Rng::derive(seed, 0xB, round).shuffle(&mut order);
+        for &i in &order {
+            if let (Some(a), Ok(b)) = (first[i], call(|| (list[i].1)())) {
+                sh.eval(1);
+                if a != b {
+                    report(sh, "repeat_after_other_calls", &list[i].0, a, b);
+                }
+            }
+        }
+        // (c) a fresh thread has no thread-local history
+        for i in (0..n).step_by(3) {
+            if let Some(a) = first[i] {
+                let f = &list[i].1;
+                let b = std::thread::scope(|s| s.spawn(|| call(|| f())).join().ok().and_then(|r| r.ok()));
+                sh.eval(1);
+                if let Some(b) = b {
+                    if a != b {
+                        report(sh, "repeat_on_fresh_thread", &list[i].0, a, b);
+                    }
+                }
+            }
+        }
+        sh.class("round");
     }
 }
 
@@ -305,8 +332,13 @@ pub fn digest_run(args: &[String]) {
     let get = |n: &str, d: u64| args.iter().position(|a| a == n).and_then(|i| args.get(i + 1)).and_then(|s| s.parse().ok()).unwrap_or(d);
     let (seed, scale, repeat) = (get("--seed", 1), get("--scale", 1) as u32, get("--repeat", 1));
     crate::report::install_quiet_panic_hook();
-    println!("# threads={} seed={seed} scale={scale}", rayon::current_num_threads());
-    for (name, f) in ops(seed, scale) {
+    let order = get("--order", 0);
+    println!("# threads={} seed={seed} scale={scale} order={order}", rayon::current_num_threads());
+    let mut list = ops(seed, scale);
+    if order > 0 {
+        Rng::derive(seed, 0x0DE, order).shuffle(&mut list);
+    }
+    for (name, f) in list {
         for _ in 0..repeat {
             match call(|| f()) {
                 Ok(d) => println!("{name} {d:016x}"),
